@@ -170,6 +170,38 @@ let img_transform kind pix stride x0 y0 x1 y1 pcs =
       | _ -> failwith "pixel") (String.split_on_char ';' pcs) in
   hex_of_bytes (transform dst l)
 
+(* ---------- matrices (Flocq binary64 / binary32) ---------- *)
+let zhex s = match n_of_hex s with N0 -> Z0 | Npos p -> Zpos p
+let hexz z = match z with Z0 -> "0" | Zpos p -> hex_of_n (Npos p) | Zneg _ -> "neg"
+let f64h s = f64_of_bits (zhex s)
+let f32h s = f32_of_bits (zhex s)
+let h64 x = hexz (bits64 x)
+let h32 x = hexz (bits32 x)
+let vec_of l = match l with [a; b; c] -> { v0 = a; v1 = b; v2 = c } | _ -> failwith "vec"
+let mat_of l = match l with [a; b; c; d; e; f; g; h; i] -> { c0 = vec_of [a; b; c]; c1 = vec_of [d; e; f]; c2 = vec_of [g; h; i] } | _ -> failwith "mat"
+let vec_s f v = String.concat " " [f v.v0; f v.v1; f v.v2]
+let mat_s m = String.concat " " [vec_s h64 m.c0; vec_s h64 m.c1; vec_s h64 m.c2]
+let xyy_of l = match l with [x; y; yy] -> { cx = x; cy = y; cY = yy } | _ -> failwith "xyy"
+let rec take n l = if n = 0 then [] else match l with x :: t -> x :: take (n - 1) t | [] -> []
+let rec drop n l = if n = 0 then l else match l with _ :: t -> drop (n - 1) t | [] -> []
+let opt_mat = function None -> "panic" | Some m -> mat_s m
+let matfn name args =
+  match name with
+  | "inverse" -> opt_mat (inverseF (mat_of (List.map f64h args)))
+  | "mulm" -> let l = List.map f64h args in mat_s (mulMF (mat_of (take 9 l)) (mat_of (drop 9 l)))
+  | "mulv" -> let l = List.map f64h args in vec_s h64 (mulVF (mat_of (take 9 l)) (vec_of (drop 9 l)))
+  | "transpose" -> mat_s (transposeF (mat_of (List.map f64h args)))
+  | "to_xyz" | "from_xyz" ->
+    let l = List.map f32h args in
+    let q i = xyy_of (take 3 (drop (3 * i) l)) in
+    opt_mat ((if name = "to_xyz" then to_xyzF else from_xyzF) (q 0) (q 1) (q 2) (q 3))
+  | "xyz32" -> vec_s h32 (xyz32 (xyy_of (List.map f32h args)))
+  | "adapt_xyz" -> let l = List.map f32h args in mat_s (adaptF (vec_of (take 3 l)) (vec_of (drop 3 l)))
+  | "adapt_xyy" -> let l = List.map f32h args in mat_s (adapt_xyyF (xyy_of (take 3 l)) (xyy_of (drop 3 l)))
+  | "apply" -> let m = mat_of (List.map f64h (take 9 args)) in vec_s h32 (applyF m (vec_of (List.map f32h (drop 9 args))))
+  | "bradford_inverse" -> mat_s bradford_inverse
+  | _ -> "BAD-REQUEST"
+
 (* ---------- dispatch ---------- *)
 let handle (line : string) : string =
   match String.split_on_char ' ' line with
@@ -177,6 +209,7 @@ let handle (line : string) : string =
   | ["icc_header"; d] -> icc_header (bytes_of_hex d)
   | ["icc_tags"; d] -> icc_tags (bytes_of_hex d)
   | ["icc_desc"; d] -> icc_desc (bytes_of_hex d)
+  | "mat" :: name :: args -> matfn name args
   | ["quant"; w; bits] -> quant w (int_of_string bits)
   | ["ycc"; y; cb; cr] ->
     let ((r, g), b) = ycbcr_to_rgb8 (zi y) (zi cb) (zi cr) in
